@@ -96,12 +96,17 @@ Qed.
 Lemma set_audio_pt_cache s pt : rs_cache (set_audio_pt s pt) = rs_cache s.
 Proof. reflexivity. Qed.
 
+(* no value type makes a comma-ok assertion panic *)
+Lemma assert_f64_ok v : exists r, assert_f64 true v = Ok r.
+Proof. destruct v as [[bits|b|str|l]|]; eexists; reflexivity. Qed.
+
 Lemma rtsp_meta_ok s p : exists s', rtsp_meta acfg s p = Ok s' /\ rs_cache s' = rs_cache s.
 Proof.
-  unfold rtsp_meta. destruct (parse_metadata_no_crash acfg p) as [_ Hnp].
+  unfold rtsp_meta, rtsp_meta_gen. destruct (parse_metadata_no_crash acfg p) as [_ Hnp].
   destruct (fst (parse_metadata acfg p)) as [meta|e|site].
-  - destruct (pairs_find MediaRtspRemux.k_audiocodecid meta) as [[bits|b|str|l]|]; try (eexists; split; reflexivity).
-    eexists; split; [reflexivity|].
+  - destruct (assert_f64_ok (pairs_find MediaRtspRemux.k_audiocodecid meta)) as [codec ->]. cbn [bind].
+    destruct (assert_f64_ok (pairs_find k_audiosamplerate meta)) as [sr ->]. cbn [bind].
+    eexists; split; [reflexivity|]. destruct codec as [bits|]; [|reflexivity].
     destruct (_ =? 8); [reflexivity|]. destruct (_ =? 7); [reflexivity|]. destruct (_ =? 13); reflexivity.
   - eexists; split; reflexivity.
   - exfalso. exact (Hnp site eq_refl).
